@@ -323,6 +323,14 @@ func c13BuildSpecials() {
 	} {
 		add("call-arg/unary-or-operator", e)
 	}
+	// an argument that holds an operator and parentheses of its own (a nested call, a grouped sub-expression)
+	for _, e := range []c13E{
+		c13Pipe(n1, c13Call("hSub", c13Bin("*", c13Bin("+", n2, c13Int(1)), c13Int(2)))), c13Pipe(s1, c13Call("hCat", c13Bin("+", c13Call("upper", s2), c13Str("k1")))),
+		c13Pipe(n1, c13Call("hSub", c13Bin("+", c13Call("hDbl", n2), c13Int(1))), c13Call("hDbl")), c13Pipe(c13P("se"), c13Call("default", c13Bin("+", c13Call("upper", s1), c13Str("zed")))),
+		c13Call("hSub", n1, c13Bin("*", c13Bin("+", n2, c13Int(1)), c13Int(2))), c13Pipe(s1, c13Call("upper"), c13Call("hCat", c13Bin("+", c13Call("lower", s2), c13Str("k1")))),
+	} {
+		add("call-arg/operator-and-parentheses", e)
+	}
 	for _, e := range []c13E{
 		c13Call("len", c13Bin("+", s1, s2)), c13Call("upper", c13Bin("+", s1, c13Str("k1"))), c13Call("upper", c13Tern(c13P("bt"), s1, s2)),
 	} {
